@@ -169,13 +169,24 @@ def single_op_programs(rng):
                                               {'op': 'bin', 'fn': 'mul', 'a': 6, 'b': 7}, {'op': 'setitem', 'buf': 1, 'idx': [0], 'val': 8},
                                               {'op': 'ew', 'fn': 'sin', 'a': 1}],
                   'out': 9, 'out_shape': [2]})
-    for kind in ['inv', 'solve', 'det', 'logdet', 'trace', 'qr', 'cholesky', 'eigh', 'lu', 'svd', 'qr_full']:
+    for kind in ['inv', 'solve', 'det', 'logdet', 'trace', 'qr', 'cholesky', 'eigh', 'eighQ', 'lu', 'svd', 'qr_full']:
         for n in (2, 3):
-            sym = kind in ('cholesky', 'eigh', 'logdet')
+            sym = kind in ('cholesky', 'eigh', 'eighQ', 'logdet')
             perms = [list(range(n))] if sym else [list(range(n)), list(range(n))[::-1]] + ([[1, 2, 0], [2, 0, 1]] if n == 3 else [])
             for perm in perms:
                 progs.append({'inputs': [[n * n]], 'steps': [{'op': 'mkmat', 'a': 0, 'n': n, 'sym': sym, 'kind': kind, 'perm': perm},
                                                              {'op': 'la', 'kind': kind, 'a': 1}], 'out': 2, 'out_shape': []})
+    # (inverse) transform of REAL data, real and imaginary parts used (the adjoint of the real argument stays real)
+    for ax_shape, ax in [((3,), 0), ((2, 3), 0), ((2, 3), -1)]:
+        for inv in (False, True):
+            progs.append({'inputs': [list(ax_shape)], 'steps': [{'op': 'fftparts', 'a': 0, 'axis': ax, 'inv': inv}], 'out': 1, 'out_shape': list(ax_shape)})
+    # outer product with a constant vector on either side
+    for side in ('l', 'r'):
+        progs.append({'inputs': [[3]], 'steps': [{'op': 'outerc', 'a': 0, 'c': [0.5, -1.5], 'side': side}], 'out': 1,
+                      'out_shape': [3, 2] if side == 'r' else [2, 3]})
+    # dot with operands of rank 3 (NumPy: last axis of a with the second-to-last of b)
+    for sa, sb in [((2, 2, 3), (3,)), ((2, 2, 3), (3, 2)), ((3,), (2, 3, 2)), ((2, 3), (2, 3, 2))]:
+        progs.append({'inputs': [list(sa), list(sb)], 'steps': [{'op': 'dot', 'a': 0, 'b': 1}], 'out': 2, 'out_shape': list(np.dot(np.zeros(sa), np.zeros(sb)).shape)})
     # the factorized / inverted matrix has a second consumer recorded after the node (its adjoint is non-zero when the
     # node's pullback runs), square and rectangular (tall, wide) QR
     for kind in ['inv', 'solve', 'det', 'logdet', 'trace', 'qr', 'cholesky', 'eigh', 'lu', 'svd', 'qr_full']:
